@@ -4,6 +4,8 @@ use crate::util::run::{CaseOut, Ctx, Summary};
 
 pub mod c14;
 pub mod c15;
+pub mod tcp_pair;
+pub mod tcp_sender;
 
 pub struct Part {
     pub name: &'static str,
@@ -22,5 +24,5 @@ pub struct Monitor {
 }
 
 pub fn all() -> Vec<Monitor> {
-    vec![c14::monitor(), c15::monitor()]
+    vec![tcp_pair::monitor_c01(), tcp_pair::monitor_c02(), tcp_pair::monitor_c05(), tcp_pair::monitor_c13(), c14::monitor(), c15::monitor()]
 }
